@@ -51,21 +51,11 @@ theorem genSub_spec {version : Nat} {p : Prog} {sd : SubDef} {slots : List Nat} 
 /-- the same under the frame-pointer convention (by-value parameters only): the prologue is
     `proto`, parameters are read with `frame_dig` -/
 theorem genSub_spec_fp {version : Nat} {p : Prog} {sd : SubDef} {slots : List Nat} {r : Routine}
-    (hval : ∀ kv ∈ sd.params, kv.1 = ParamKind.val)
     (h : genSub version true false p sd slots = .ok r) :
-    ∃ bs, Blk r.G r.start [.proto sd.params.length (if sd.hasRet then 1 else 0)] (.next bs) ∧
+    ∃ bs, Blk r.G r.start (.proto sd.params.length (if sd.hasRet then 1 else 0) :: refCopies sd) (.next bs) ∧
       ShapeR r.G { version := version, inSub := true, framePointers := true, frameParams := fpParams sd,
                    callees := calleesOf p, reenters := sd.reenters, localSlots := slots, markIndex := false }
         (wrapBody sd) bs 0 none := by
-  have hnoref : (((List.range sd.params.length).zip sd.params).reverse.filterMap
-      (fun (x : Nat × ParamKind × Var) => if x.2.1 == ParamKind.ref then
-        some [Instr.frameDig ((x.1 : Int) - (sd.params.length : Int)), Instr.store x.2.2] else none)) = [] := by
-    rw [List.filterMap_eq_nil_iff]
-    intro x hx
-    have hx' := (List.of_mem_zip (List.mem_reverse.mp hx)).2
-    have := hval x.2 hx'
-    rw [this]
-    rfl
   unfold genSub at h
   simp only [StateT.run, if_true] at h
   split at h
@@ -79,7 +69,6 @@ theorem genSub_spec_fp {version : Nat} {p : Prog} {sd : SubDef} {slots : List Na
     refine ⟨bs, ?_, ?_⟩
     · unfold Blk
       simp only [Array.getElem?_push_size, Option.some.injEq]
-      rw [hnoref]
       rfl
     · exact spec.2 _ noP (fun i f => f.elim) (Ext.push g3 _)
   · cases h
@@ -187,7 +176,7 @@ theorem subOK_of_genSub {P : PCtx} {f : Nat} {sd : SubDef} {r : Routine}
     (hok : subOkC P.fp P.p sd P.dyn P.strict = true) : SubOK P f sd := by
   simp only [subOkC, Bool.and_eq_true, List.all_eq_true, decide_eq_true_eq, Bool.or_eq_true, Bool.not_eq_true',
     List.contains_eq_mem, decide_eq_false_iff_not, beq_iff_eq] at hok
-  obtain ⟨⟨⟨⟨⟨⟨⟨⟨hwt, hpar⟩, hnd⟩, hloc⟩, hsnd⟩, hs1⟩, hs2⟩, hpl⟩, _⟩ := hok
+  obtain ⟨⟨⟨⟨⟨⟨⟨⟨hwt, hpar⟩, hnd⟩, hloc⟩, hsnd⟩, hs1⟩, hs2⟩, hpl⟩, hstr⟩ := hok
   have hlook : ∃ G sf bs, P.Pg.subs.lookup (subLabel f) = some (G, sf) ∧ Blk G sf (prologue P.fp sd) (.next bs) ∧
       ShapeR G (subCfg P sd) (wrapBody sd) bs 0 none := by
     cases hfp : P.fp with
@@ -202,31 +191,59 @@ theorem subOK_of_genSub {P : PCtx} {f : Nat} {sd : SubDef} {r : Routine}
         exact hsh
     | true =>
       rw [hfp] at hr
-      obtain ⟨bs, hb, hsh⟩ := genSub_spec_fp (fun kv hkv => by
-        rcases (hpar kv hkv).1 with h | h
-        · exact beq_eqv kv h
-        · rw [hfp] at h; cases h) hr
+      obtain ⟨bs, hb, hsh⟩ := genSub_spec_fp hr
       refine ⟨r.G, r.start, bs, hl, ?_, ?_⟩
       · simp only [prologue, if_true]
         exact hb
       · simp only [subCfg, hfp, if_true]
         exact hsh
-  refine ⟨hlook, hwt, nodupB_nodup _ hnd, ?_, ?_, ?_, ?_,
+  refine ⟨hlook, hwt, nodupB_nodup _ hnd, ?_, ?_, ?_, ?_, ?_,
     nodupB_nodup _ hsnd, ?_, ?_, ?_⟩
   · -- p256
     intro hfp kv hkv
     rcases (hpar kv hkv).2 with h | h
-    · rw [hfp] at h; cases h
+    · rw [hfp] at h; cases h.1
     · exact h
   · -- pval
-    intro hfp kv hkv
-    rcases (hpar kv hkv).1 with h | h
+    intro hfp hs kv hkv
+    rcases (hpar kv hkv).1 with (h | h) | h
     · exact beq_eqv kv h
     · rw [hfp] at h; cases h
+    · rw [hs] at h; cases h
   · -- pign
-    intro hfp kv hkv
+    intro hfp kv hkv hk
     simp only [PCtx.ign, ignOf, hfp, if_true]
-    exact mem_allParamSlots hmem hkv
+    split
+    · refine List.mem_flatMap.mpr ⟨sd, hmem, ?_⟩
+      unfold valSlots
+      exact List.mem_map.mpr ⟨kv, List.mem_filter.mpr ⟨hkv, by rw [hk]; rfl⟩, rfl⟩
+    · exact mem_allParamSlots hmem hkv
+  · -- pref
+    intro hfp kv hkv hk
+    refine ⟨?_, ?_⟩
+    · rcases (hpar kv hkv).2 with h | h
+      · rw [hk] at h; exact absurd h.2 (by decide)
+      · exact h
+    · simp only [PCtx.ign, ignOf, hfp, if_true]
+      rcases hstr with hs | hs
+      · -- without the discipline every parameter is by value
+        rcases (hpar kv hkv).1 with (h | h) | h
+        · rw [hk] at h; exact absurd h (by decide)
+        · rw [hfp] at h; cases h
+        · rw [hs] at h; cases h
+      · have hsT : P.strict = true := by
+          cases hst : P.strict with
+          | true => rfl
+          | false =>
+            rcases (hpar kv hkv).1 with (h | h) | h
+            · rw [hk] at h; exact absurd h (by decide)
+            · rw [hfp] at h; cases h
+            · rw [hst] at h; cases h
+        rw [hsT]
+        simp only [if_true]
+        refine hs.2 kv.2 ?_
+        unfold refSlots
+        exact List.mem_map.mpr ⟨kv, List.mem_filter.mpr ⟨hkv, by rw [hk]; rfl⟩, rfl⟩
   · -- plocal
     intro hfp kv hkv
     rcases hpl with h | h
